@@ -116,6 +116,7 @@ pub fn poly_raw() -> impl Strategy<Value = PolyRaw> {
             2 => Just(5u8), // sparse
             2 => Just(6u8), // maximal degree
             1 => Just(7u8), // single monomial
+            1 => Just(8u8), // random, then shifted by a constant so that it vanishes at the first point value
         ],
         any::<u16>(),
         prop_oneof![2 => Just(0u16), 3 => 1u16..=u16::MAX],
